@@ -91,17 +91,17 @@ impl Property for NatProp {
 
     fn cases(&self, tier: Tier) -> u64 {
         match (self.which, tier) {
-            (Which::C01, Tier::Quick) => 1_200_000,
+            (Which::C01, Tier::Quick) => 2_400_000,
             (Which::C01, Tier::Thorough) => 40_000_000,
-            (Which::C02, Tier::Quick) => 1_200_000,
+            (Which::C02, Tier::Quick) => 2_400_000,
             (Which::C02, Tier::Thorough) => 40_000_000,
-            (Which::C03, Tier::Quick) => 500_000,
-            (Which::C03, Tier::Thorough) => 15_000_000,
-            (Which::C04, Tier::Quick) => 400_000,
+            (Which::C03, Tier::Quick) => 2_000_000,
+            (Which::C03, Tier::Thorough) => 40_000_000,
+            (Which::C04, Tier::Quick) => 600_000,
             (Which::C04, Tier::Thorough) => 12_000_000,
-            (Which::C05, Tier::Quick) => 1_000_000,
+            (Which::C05, Tier::Quick) => 3_000_000,
             (Which::C05, Tier::Thorough) => 40_000_000,
-            (Which::C06, Tier::Quick) => 1_000_000,
+            (Which::C06, Tier::Quick) => 3_000_000,
             (Which::C06, Tier::Thorough) => 40_000_000,
         }
     }
